@@ -640,6 +640,20 @@ def run(repo: Repo) -> Result:
     res.ob("prec", 5)
     inner = next((n for n in be.node.body if isinstance(n, ast.FunctionDef)), None)
     if inner is None:
+        # the same recursive helper as a private module-level function called from __str__
+        import copy as _copy0
+
+        for c0 in ast.walk(be.node):
+            if isinstance(c0, ast.Call) and isinstance(c0.func, ast.Name) and c0.func.id in be.module.functions:
+                hf = be.module.functions[c0.func.id]
+                if any(isinstance(x, ast.Call) and is_name(x.func, hf.name) for x in ast.walk(hf.node)):
+                    inner = _copy0.deepcopy(hf.node)
+                    for x in ast.walk(inner):
+                        if isinstance(x, ast.Name) and x.id == hf.name:
+                            x.id = "_str"
+                    inner.name = "_str"
+                    break
+    if inner is None:
         res.add("C04-PREC", be.qual, "shape", "BooleanExpression.__str__: recursive helper not found", be.file, be.line)
     else:
         # local names are spelling: the locals handed on as precedence / binding in the recursive
@@ -669,7 +683,10 @@ def run(repo: Repo) -> Result:
                 for st in n.body:
                     if isinstance(st, ast.Assign):
                         tg = st.targets[0]
-                        if isinstance(tg, ast.Tuple) and isinstance(st.value, ast.Tuple):
+                        if isinstance(tg, ast.Tuple) and isinstance(st.value, ast.Name) and isinstance(mod.assigns.get(st.value.id), ast.Tuple):
+                            # a module-level constant naming the triple
+                            branches[cls_name] = dict(zip([t.id for t in tg.elts if isinstance(t, ast.Name)], [text(v) for v in mod.assigns[st.value.id].elts]))
+                        elif isinstance(tg, ast.Tuple) and isinstance(st.value, ast.Tuple):
                             branches[cls_name] = dict(zip([t.id for t in tg.elts if isinstance(t, ast.Name)], [text(v) for v in st.value.elts]))
                         elif isinstance(tg, ast.Name):
                             branches.setdefault(cls_name, {})[tg.id] = text(st.value)
